@@ -102,7 +102,8 @@ pub fn run(line: &str) -> Obs {
                     } else {
                         let mut buf = vec![0u8; p[1].parse().unwrap()];
                         let n = iov.consumer().read(&mut buf).unwrap();
-                        ret.extend(buf[..n].iter().map(|b| *b as i128));
+                        let bytes: Vec<i128> = buf[..n].iter().map(|b| *b as i128).collect();
+                        ret.extend(crate::iovw::digest3(&bytes));
                     }
                     return ret;
                 }
@@ -138,12 +139,12 @@ pub fn run(line: &str) -> Obs {
             Some(d) => {
                 let (tag, rem, flag) = d.state();
                 obs.push(vec![tag as i128, rem as i128, flag as i128]);
-                w.observe_one(d.iovec(), &mut obs)
+                w.observe_one_opt(d.iovec(), &mut obs, true)
             }
             None => {
                 obs.push(vec![]);
                 match done.as_ref() {
-                    Some(iov) => w.observe_one(iov, &mut obs),
+                    Some(iov) => w.observe_one_opt(iov, &mut obs, true),
                     None => {
                         for _ in 0..7 {
                             obs.push(vec![]);
